@@ -17,7 +17,10 @@ import (
 //   ; S epoch block id w ...               sealing rule
 //   ; E i epoch creator seq lamport frame p1 p2 ...   event definition (parents = event numbers, self-parent first)
 //   ; P i | X i f | B ep cr seq lam p.. | b ep cr seq lam p.. | R | RESET ep id w .. | M i | G f
-//   ; ALT ; ops of the second (reference) instance
+//   ; ALTFROM ep id w ..                   (C09 only; no-op marker) the reference instance starts here
+// The second (reference) instance of the differential properties is DERIVED from the op list:
+//   C07: the ops without the injected ones (b, X);  C08: without R;
+//   C09: RESET <args of ALTFROM> followed by the ops after the marker.
 // Observation: one group per operation, "||" between the two instances.
 
 // EvDef is an event definition of the case file.
@@ -166,8 +169,61 @@ func (r *runner) blocksTok(bl []BlockObs) []string {
 	return out
 }
 
-// Exec runs both op lists of the scenario on the real code and returns the observation tokens.
+// AltGroups derives the op list of the reference instance (nil = none).
+func AltGroups(mix string, groups [][]string) [][]string {
+	var out [][]string
+	switch mix {
+	case "C07":
+		for _, g := range groups {
+			if g[0] != "b" && g[0] != "X" {
+				out = append(out, g)
+			}
+		}
+	case "C08":
+		for _, g := range groups {
+			if g[0] != "R" {
+				out = append(out, g)
+			}
+		}
+	case "C09":
+		k := -1
+		for i, g := range groups {
+			if g[0] == "ALTFROM" {
+				k = i
+				break
+			}
+		}
+		if k < 0 {
+			return nil
+		}
+		for _, g := range groups[:k] {
+			if g[0] == "E" {
+				out = append(out, g)
+			}
+		}
+		out = append(out, append([]string{"RESET"}, groups[k][1:]...))
+		out = append(out, groups[k+1:]...)
+	default:
+		return nil
+	}
+	return out
+}
+
+// Exec runs the op list (and the derived reference op list) on the real code and returns the
+// observation tokens.
 func Exec(sc *Scenario, stat func(string)) []string {
+	if BuildVals(sc.Vals).Len() == 0 { // no genesis validators: not a scenario (only met while shrinking)
+		return []string{"invalid"}
+	}
+	out := execOne(sc, sc.Groups, stat)
+	if alt := AltGroups(sc.Mix, sc.Groups); alt != nil {
+		out = append(out, "||")
+		out = append(out, execOne(sc, alt, func(string) {})...)
+	}
+	return out
+}
+
+func execOne(sc *Scenario, groups [][]string, stat func(string)) []string {
 	r := &runner{sc: sc, defs: map[int]*EvDef{}, ids: map[int]hash.Event{}, num: map[hash.Event]int{}}
 	inst := NewInst(sc.Cfg, sc.Epoch0, sc.Vals, sc.Policy)
 	var out []string
@@ -179,15 +235,12 @@ func Exec(sc *Scenario, stat func(string)) []string {
 		first = false
 		out = append(out, toks...)
 	}
-	for _, g := range sc.Groups {
+	for _, g := range groups {
 		switch g[0] {
 		case "E":
 			r.define(g)
 			continue
-		case "ALT":
-			inst = NewInst(sc.Cfg, sc.Epoch0, sc.Vals, sc.Policy)
-			out = append(out, "||")
-			first = true
+		case "ALTFROM":
 			continue
 		}
 		if inst.Dead {
